@@ -688,8 +688,18 @@ func c13RunMode(x *X, c *Chooser, shape c13Shape, nregs int, passes int, endsOnl
 				w.regs = append(w.regs, reg)
 				continue
 			}
-			err := registerCB(w.t, po, s.when, s.target, &c13Rec{w, reg})
-			c.Logf("t.RegisterPropertyCallback(%s, %s, %s, rec#%d) -> %v", owner, cbTimeNames[s.when], cbTargetNames[s.target], reg.id, err)
+			var via tabular.Table = w.t
+			viaName := "t"
+			if mode == "ctor" && (strings.HasPrefix(owner, "row:") || (strings.HasPrefix(owner, "cell:") && !strings.HasPrefix(owner, "cell:H:"))) {
+				// a row that is not attached yet belongs to no table: the registration may be made through any table
+				var ri int
+				fmt.Sscanf(strings.TrimPrefix(strings.TrimPrefix(owner, "row:"), "cell:"), "%d", &ri)
+				if ri < len(w.rows) && !w.rows[ri].att && c.Bool() {
+					via, viaName = tabular.New(), "anotherTable"
+				}
+			}
+			err := registerCB(via, po, s.when, s.target, &c13Rec{w, reg})
+			c.Logf("%s.RegisterPropertyCallback(%s, %s, %s, rec#%d) -> %v", viaName, owner, cbTimeNames[s.when], cbTargetNames[s.target], reg.id, err)
 			x.Clause("C13.refused")
 			if c13Supported(owner, s.target) {
 				if err != nil {
